@@ -367,8 +367,11 @@ WORKSPACES = {
 }
 
 
+ALL_WORKSPACES = dict(WORKSPACES)      # + the single-file workspaces of the output channel phase (below)
+
+
 def make_workspace(root, name):
-    files, levels = WORKSPACES[name]
+    files, levels = ALL_WORKSPACES[name]
     d = os.path.join(root, name)
     for rel, content in files.items():
         p = os.path.join(d, rel)
@@ -450,6 +453,11 @@ def binary_runs(ctx, regal, h, only=None):
         return j
     with concurrent.futures.ThreadPoolExecutor(max_workers=12) as ex:
         jobs = list(ex.map(one, jobs))
+    return jobs
+
+
+def finish_jobs(ctx, h, jobs):
+    """attach to every run the report its workspace published as JSON, parse the stdout documents"""
     # the report of a workspace = what its json run published (same for both fail levels)
     reports = {}
     for j in jobs:
@@ -527,8 +535,271 @@ def eval_binary(ctx, jobs):
     return e1, e2, spec
 
 
+# ------------------------------------------------------------------ the output channel
+
+BIGDIR = 'policies/authorization/a_directory_name_that_makes_every_row_long'
+CH_WORKSPACES = {           # one file each: the order of the violations (so the bytes of the output) is the same in every run
+    'ch-none': ({'c.rego': CLEAN}, {UAO: 'error', TODOC: 'warning'}),
+    'ch-small': ({'a.rego': TWO_ASSIGN}, {UAO: 'error'}),
+    'ch-other': ({'r.rego': TODO + 'y = 2\n'}, {TODOC: 'warning', UAO: 'warning'}),
+    'ch-big': ({BIGDIR + '/big_policy.rego': 'package big\n\n' + ''.join('x%d = %d\n\n' % (i, i) for i in range(760))}, {UAO: 'error'}),
+}
+ALL_WORKSPACES.update(CH_WORKSPACES)
+
+
+def run_regal_ch(regal, cwd, args, stdout_to=None, fsize_limit=None):
+    """like run_regal; stdout_to: path stdout is redirected to (a device); fsize_limit: RLIMIT_FSIZE in bytes with SIGXFSZ ignored,
+    i.e. an output device on which write(2) fails (EFBIG) once that many bytes are in the file"""
+    import resource, signal
+    env = dict(os.environ, CI='1', NO_COLOR='1', REGAL_DISABLE_VERSION_CHECK='1')
+    env.pop('GITHUB_STEP_SUMMARY', None)
+    env.pop('RUNNER_DEBUG', None)
+
+    def pre():
+        signal.signal(signal.SIGXFSZ, signal.SIG_IGN)
+        resource.setrlimit(resource.RLIMIT_FSIZE, (fsize_limit, fsize_limit))
+    out = open(stdout_to, 'wb') if stdout_to else subprocess.PIPE
+    try:
+        p = subprocess.run([regal] + args, cwd=cwd, env=env, stdout=out, stderr=subprocess.PIPE, timeout=300,
+                           preexec_fn=pre if fsize_limit is not None else None)
+    finally:
+        if stdout_to:
+            out.close()
+    return p.returncode, (p.stdout if not stdout_to else b''), p.stderr
+
+
+def channel_runs(ctx, regal, h, only=None):
+    """the OUTPUT CHANNEL of regal lint: for every format, stdout vs --output-file (fresh path, existing file with longer / shorter /
+    unrelated content, repeated runs with different reports into one file), and channels that fail (/dev/full as file and as stdout,
+    a device that fails late, paths that cannot be opened).  Returns (stdout jobs for the exit/document pipeline, list of problems,
+    statistics, file observations for Coq)"""
+    t_start = time.time()
+    root = os.path.join(ctx.tmp, 'ws')
+    outdir = os.path.join(ctx.tmp, 'chan')
+    os.makedirs(outdir, exist_ok=True)
+    dirs = {name: make_workspace(root, name) for name in CH_WORKSPACES}
+    quick = ctx.quick()
+    problems, file_obs = [], []
+    stats = {'stdout_runs': 0, 'output_file_runs': 0, 'failing_channel_runs': 0, 'by_failing_channel': {}, 'bytes': {}}
+
+    # ---- reference: the same command line writing to stdout
+    ref_jobs = [{'ws': w, 'dir': dirs[w], 'fail_level': 'error', 'format': f, 'args': ['lint', '--format', f, '--fail-level', 'error', '.']}
+                for w in CH_WORKSPACES for f in FORMATS]
+
+    def one(j):
+        j['status'], j['stdout'], j['stderr'] = run_regal(regal, j['dir'], j['args'])
+        return j
+    with concurrent.futures.ThreadPoolExecutor(max_workers=12) as ex:
+        ref_jobs = list(ex.map(one, ref_jobs))
+    stats['stdout_runs'] = len(ref_jobs)
+    t_ref = time.time()
+    ref = {(j['ws'], j['format']): j for j in ref_jobs}
+    report_files = {}
+    for w in CH_WORKSPACES:
+        rp = os.path.join(outdir, 'report_%s.json' % w)
+        with open(rp, 'wb') as f:
+            f.write(ref[(w, 'json')]['stdout'])
+        report_files[w] = rp
+    for (w, f), j in ref.items():
+        stats['bytes']['%s/%s' % (w, f)] = len(j['stdout'])
+        want = {'ch-none': 0, 'ch-small': 3, 'ch-other': 0, 'ch-big': 3}[w]
+        if j['status'] != want:
+            problems.append(dict(chan_replay(j), kind='exit-code', what='exit status %d, expected %d' % (j['status'], want),
+                                 sig='%s/%s/stdout' % (w, f)))
+    for f in FORMATS:
+        n = len(ref[('ch-big', f)]['stdout'])
+        if n <= 65536:
+            raise RuntimeError('workspace ch-big is too small for format %s: %d bytes' % (f, n))
+
+    # ---- (a) --output-file: chains of runs into one file, one chain per format
+    def chain(f):
+        res = []
+        path = os.path.join(outdir, 'chain.%s.out' % f)
+        garbage = bytes(ctx_garbage)
+        steps = [('fresh', 'ch-small', None), ('same-again', 'ch-small', None), ('shorter-existing', 'ch-big', None),
+                 ('longer-existing', 'ch-other', None), ('longer-existing', 'ch-none', None), ('garbage-existing', 'ch-small', garbage)]
+        if quick:
+            steps = [steps[0], steps[2], steps[3], steps[4], steps[5]]
+        for kind, w, prefill in steps:
+            prev = open(path, 'rb').read() if os.path.exists(path) else None
+            if prefill is not None:
+                with open(path, 'wb') as fh:
+                    fh.write(prefill)
+                prev = prefill
+            rel = (len(res) % 2 == 1)     # every other run spells the path relative to the working directory
+            arg = os.path.relpath(path, dirs[w]) if rel else path
+            args = ['lint', '--format', f, '--fail-level', 'error', '--output-file', arg, '.']
+            rc, out, err = run_regal(regal, dirs[w], args)
+            got = open(path, 'rb').read() if os.path.exists(path) else None
+            res.append({'kind': kind, 'ws': w, 'dir': dirs[w], 'format': f, 'args': args, 'status': rc, 'stdout': out, 'stderr': err,
+                        'prev': prev, 'file': got, 'path': path})
+        return res
+    ctx_garbage = [ctx.rng.below(256) for _ in range(3000)]
+    fmts = FORMATS if not only else [only['format']]
+    with concurrent.futures.ThreadPoolExecutor(max_workers=7) as ex:
+        chains = list(ex.map(chain, fmts))
+    t_chain = time.time()
+    manifest, midx = [], []
+    for ch in chains:
+        for k, r in enumerate(ch):
+            stats['output_file_runs'] += 1
+            want = ref[(r['ws'], r['format'])]
+            rp = dict(chan_replay(r), step=r['kind'], previous_content_bytes=None if r['prev'] is None else len(r['prev']),
+                      chain=[{'workspace': x['ws'], 'args': x['args']} for x in ch[:k + 1]])
+            sig = '%s/%s' % (r['format'], r['kind'])
+            if r['status'] != want['status']:
+                problems.append(dict(rp, kind='output-file-exit', sig=sig,
+                                     what='exit status %d with --output-file, %d with the same report on stdout' % (r['status'], want['status'])))
+            elif r['file'] is None:
+                problems.append(dict(rp, kind='output-file', sig=sig, what='the output file does not exist after the run'))
+            elif r['file'] != want['stdout']:
+                # two stdout runs of one single-file workspace are byte-identical (checked below on demand)
+                rc2, out2, _ = run_regal(regal, r['dir'], want['args'])
+                if out2 == want['stdout']:
+                    tail = r['file'][len(want['stdout']):] if r['file'].startswith(want['stdout']) else None
+                    problems.append(dict(rp, kind='output-file', sig=sig, expected_bytes=len(want['stdout']), file_bytes=len(r['file']),
+                                         unexpected_tail=None if tail is None else tail[-300:].decode('utf-8', 'replace'),
+                                         file_head=r['file'][:300].decode('utf-8', 'replace'),
+                                         what='after the run the output file (%d bytes) is not the rendering of this run\'s report (%d bytes '
+                                              'on stdout)%s' % (len(r['file']), len(want['stdout']),
+                                                                '' if tail is None else ': the rendering is followed by %d bytes of the previous content' % len(tail))))
+            if r['stdout'].strip():
+                problems.append(dict(rp, kind='output-file', sig=sig + '/stdout',
+                                     what='with --output-file the run also wrote to stdout: %r' % r['stdout'][:200]))
+            if r['file'] is not None:
+                manifest.append({'format': r['format'], 'file': r['path'] + '.%d' % k, 'report': report_files[r['ws']]})
+                with open(r['path'] + '.%d' % k, 'wb') as fh:
+                    fh.write(r['file'])
+                midx.append((rp, sig))
+            if r['file'] is not None and len(want['stdout']) <= 6000 and (r['prev'] is None or len(r['prev']) <= 6000):
+                file_obs.append((r['prev'], want['stdout'], r['file'], rp, sig))
+    # independent reading of the files: each parses and presents the violations of its report exactly once
+    if manifest:
+        mp = os.path.join(ctx.tmp, 'check_manifest.json')
+        json.dump(manifest, open(mp, 'w'))
+        pr = subprocess.run([h, 'checkbatch', mp], stdout=subprocess.PIPE, stderr=subprocess.PIPE, timeout=900)
+        if pr.returncode != 0:
+            raise RuntimeError('c10 checkbatch failed: ' + pr.stderr.decode('utf-8', 'replace')[-2000:])
+        lines = pr.stdout.decode('utf-8').splitlines()
+        assert len(lines) == len(manifest)
+        for (rp, sig), l in zip(midx, lines):
+            v = json.loads(l)
+            if not v['ok'] and finding_kind(v.get('detail', '')) != 'format-omits-rule-and-level':
+                problems.append(dict(rp, kind='output-file-predicate', sig=sig,
+                                     what='the output file does not present every violation of the report exactly once: ' + v.get('detail', '')))
+
+    t_chk = time.time()
+    # ---- (b) channels that fail: the report cannot be delivered, so the run must exit 1
+    notdir = os.path.join(outdir, 'regular_file')
+    open(notdir, 'wb').close()
+    fails = []
+    sizes = ['ch-none', 'ch-small', 'ch-big']
+    for fi, f in enumerate(FORMATS):
+        for wi, w in enumerate(sizes):
+            n = len(ref[(w, f)]['stdout'])
+            grid = [('dev-full-output-file', {'o': '/dev/full'}),
+                    ('dev-full-stdout', {'stdout_to': '/dev/full'}),
+                    ('device-fails-on-the-last-byte', {'o': os.path.join(outdir, 'lim1.%s.%s.out' % (f, w)), 'limit': max(0, n - 1)}),
+                    ('device-fails-half-way', {'o': os.path.join(outdir, 'lim2.%s.%s.out' % (f, w)), 'limit': n // 2}),
+                    ('stdout-fails-on-the-last-byte', {'stdout_to': os.path.join(outdir, 'lim3.%s.%s.out' % (f, w)), 'limit': max(0, n - 1)}),
+                    ('directory-does-not-exist', {'o': os.path.join(outdir, 'no-such-dir', 'r.out')}),
+                    ('path-is-a-directory', {'o': outdir}),
+                    ('path-below-a-regular-file', {'o': os.path.join(notdir, 'r.out')})]
+            if quick:
+                # every (format, size) meets /dev/full as output file and the device that fails on the last byte; the other kinds
+                # rotate over the formats (thorough: the full grid)
+                keep = {0, 2}
+                if w == 'ch-big':
+                    keep |= {1}
+                elif w == 'ch-small':
+                    keep |= {3 + fi % 5, 3 + (fi + 2) % 5}
+                else:
+                    keep |= {4} if fi % 2 == 0 else {1}
+                grid = [g for k, g in enumerate(grid) if k in keep]
+            for kind, spec in grid:
+                fails.append({'kind': kind, 'ws': w, 'dir': dirs[w], 'format': f, 'spec': spec, 'expected_bytes': n})
+    if os.geteuid() != 0:
+        ro = os.path.join(outdir, 'read-only-dir')
+        os.makedirs(ro, exist_ok=True)
+        os.chmod(ro, 0o555)
+        for f in FORMATS:
+            fails.append({'kind': 'read-only-directory', 'ws': 'ch-small', 'dir': dirs['ch-small'], 'format': f,
+                          'spec': {'o': os.path.join(ro, 'r.out')}, 'expected_bytes': len(ref[('ch-small', f)]['stdout'])})
+    if only:
+        fails = [x for x in fails if x['kind'] == only.get('channel') and x['format'] == only['format'] and x['ws'] == only['workspace']]
+
+    def fail_one(x):
+        sp = x['spec']
+        args = ['lint', '--format', x['format'], '--fail-level', 'error'] + (['--output-file', sp['o']] if 'o' in sp else []) + ['.']
+        x['args'] = args
+        x['status'], x['stdout'], x['stderr'] = run_regal_ch(regal, x['dir'], args, stdout_to=sp.get('stdout_to'), fsize_limit=sp.get('limit'))
+        return x
+    with concurrent.futures.ThreadPoolExecutor(max_workers=12) as ex:
+        fails = list(ex.map(fail_one, fails))
+    for x in fails:
+        stats['failing_channel_runs'] += 1
+        stats['by_failing_channel'][x['kind']] = stats['by_failing_channel'].get(x['kind'], 0) + 1
+        if x['status'] != 1:
+            problems.append(dict(chan_replay(x), kind='undelivered-report-exit', channel=x['kind'], channel_spec=x['spec'],
+                                 report_bytes=x['expected_bytes'], sig='%s/%s' % (x['format'], x['kind']),
+                                 what='the report (%d bytes as %s) could not be delivered (%s) but the exit status is %d, not 1'
+                                      % (x['expected_bytes'], x['format'], x['kind'], x['status'])))
+    stats['seconds'] = {'stdout_runs': round(t_ref - t_start, 1), 'output_file_chains': round(t_chain - t_ref, 1),
+                        'reading_the_files_back': round(t_chk - t_chain, 1), 'failing_channels': round(time.time() - t_chk, 1)}
+    return ref_jobs, chains, fails, problems, stats, file_obs
+
+
+def chan_replay(j):
+    files, levels = ALL_WORKSPACES[j['ws']]
+    big = j['ws'] == 'ch-big'
+    return {'workspace': j['ws'], 'files': {k: (v if not big else v[:200] + '... (760 assignments x<i> = <i>)') for k, v in files.items()},
+            'config': config(levels), 'command': 'regal ' + ' '.join(j['args']), 'args': j['args'], 'format': j['format'],
+            'status': j['status'], 'stdout_head': (j.get('stdout') or b'')[:600].decode('utf-8', 'replace'),
+            'stderr_head': (j.get('stderr') or b'')[:600].decode('utf-8', 'replace')}
+
+
+def eval_channel(ctx, file_obs, chains, fails, reports):
+    """Coq side of the output channel: Model/Exit.file_after vs the files; lint_fn/run_exit vs the exit statuses"""
+    global E
+    E = Emitter()
+
+    def opt_s(b):
+        return 'None' if b is None else '(Some %s)' % E.name(b)
+    fobs = ['(Build_file_obs %s %s %s)' % (opt_s(prev), E.name(rend), E.name(got)) for prev, rend, got, _, _ in file_obs]
+    eobs, emeta = [], []
+    rterm = {}
+    for w, rep in reports.items():
+        if rep is not None and w != 'ch-big':
+            rterm[w] = shared('rep', c_report(rep))
+    for ch in chains:
+        for r in ch:
+            if r['ws'] in rterm:
+                eobs.append('(Build_exit_obs %s (lint_fn IoOk (Linted %s) IoOk) %d)' % (S(hexs('error')), rterm[r['ws']], r['status']))
+                emeta.append(r)
+    for x in fails:
+        if x['ws'] in rterm:
+            opened = 'IoErr' if x['kind'] in ('directory-does-not-exist', 'path-is-a-directory', 'path-below-a-regular-file', 'read-only-directory') else 'IoOk'
+            eobs.append('(Build_exit_obs %s (lint_fn %s (Linted %s) %s) %d)' % (
+                S(hexs('error')), opened, rterm[x['ws']], 'IoOk' if opened == 'IoErr' else 'IoErr', x['status']))
+            emeta.append(x)
+    v = ['From Coq Require Import Uint63.', 'From Regal Require Import Check.C10Check.', 'Open Scope N_scope.'] + E.defs + [
+         'Definition fobs : list file_obs := ' + clist(fobs) + '.',
+         'Definition eobs : list exit_obs := ' + clist(eobs) + '.',
+         'Definition F1 := Eval vm_compute in failing file_agrees 0 fobs.',
+         'Definition E1 := Eval vm_compute in failing exit_agrees 0 eobs.',
+         'Definition E2 := Eval vm_compute in failing exit_meets_spec 0 eobs.',
+         'Print F1. Print E1. Print E2.']
+    rc, out = vlib.coq_eval(ctx, 'Cases_C10_channel', '\n'.join(v))
+    if rc != 0:
+        raise RuntimeError('channel case evaluation failed:\n' + out[-3000:])
+    f1, e1, e2 = (vlib.parse_nat_list(out, n) for n in ('F1', 'E1', 'E2'))
+    if f1 is None or e1 is None or e2 is None:
+        raise RuntimeError('cannot parse channel case evaluation:\n' + out[-2000:])
+    return f1, [emeta[i] for i in e1], [emeta[i] for i in e2], len(fobs), len(eobs)
+
+
 def job_replay(j):
-    return {'workspace': j['ws'], 'files': WORKSPACES[j['ws']][0], 'config': config(WORKSPACES[j['ws']][1]),
+    return {'workspace': j['ws'], 'files': ALL_WORKSPACES[j['ws']][0], 'config': config(ALL_WORKSPACES[j['ws']][1]),
             'command': 'regal ' + ' '.join(j['args']), 'args': j['args'], 'status': j['status'],
             'stdout_head': j['stdout'][:1500].decode('utf-8', 'replace'), 'stderr_head': j['stderr'][:600].decode('utf-8', 'replace')}
 
@@ -557,6 +828,26 @@ def run(ctx):
     cases = [json.loads(l) for l in open(out)]
     timing['harness_s'] = round(time.time() - t0 - timing['go_builds_s'], 1)
     t1 = time.time()
+
+    # the runs of the real binary (exit grid + output channel) only collect observations: they are started now and run beside
+    # the (single-threaded) Coq evaluation of the reporter cases; all verdicts are given below, in a fixed order
+    rp = json.load(open(ctx.replay)) if ctx.replay else {}
+
+    def binary_phase_runs():
+        tb = time.time()
+        if 'case' in rp or 'channel_case' in rp:
+            jobs = []
+        elif 'workspace' in rp and 'args' in rp:
+            jobs = binary_runs(ctx, regal, h, only=(rp['workspace'], rp['args']))
+        else:
+            jobs = binary_runs(ctx, regal, h)
+        tj = time.time() - tb
+        chan = None
+        if 'channel_case' in rp or not rp:
+            chan = channel_runs(ctx, regal, h, only=rp.get('channel_case'))
+        return jobs, chan, round(tj, 1), round(time.time() - tb - tj, 1)
+    bg = concurrent.futures.ThreadPoolExecutor(max_workers=1)
+    bg_runs = bg.submit(binary_phase_runs)
 
     # ---- reporter level -----------------------------------------------------------------
     model, spec = eval_cases(ctx, cases, 'rep') if cases else ({}, {})
@@ -613,17 +904,21 @@ def run(ctx):
     timing['reporter_eval_s'] = round(time.time() - t1, 1)
     t2 = time.time()
     # ---- the real binary ----------------------------------------------------------------
-    rp = json.load(open(ctx.replay)) if ctx.replay else {}
-    if 'case' in rp:
-        jobs = []
-    elif 'workspace' in rp and 'args' in rp:
-        jobs = binary_runs(ctx, regal, h, only=(rp['workspace'], rp['args']))
-    else:
-        jobs = binary_runs(ctx, regal, h)
+    jobs, chan, timing['binary_runs_s'], timing['channel_runs_s'] = bg_runs.result()
+    bg.shutdown()
+    timing['waited_for_binary_runs_s'] = round(time.time() - t2, 1)
     e1 = e2 = []
     bspec = {}
+    if chan is not None:
+        # the stdout runs of the small single-file workspaces go through the same exit / document pipeline as the grid
+        jobs += [j for j in chan[0] if j['ws'] != 'ch-big']
     if jobs:
+        tf = time.time()
+        finish_jobs(ctx, h, jobs)
+        timing['parse_stdout_s'] = round(time.time() - tf, 1)
+        tf = time.time()
         e1, e2, bspec = eval_binary(ctx, jobs)
+        timing['binary_eval_coq_s'] = round(time.time() - tf, 1)
         e2 = [i for i in e2 if jobs[i]['fail_level'] in ('error', 'warning')]   # the property speaks about these two levels
         seen_exit = set()
         for i in e2:
@@ -664,6 +959,33 @@ def run(ctx):
             vlib.violation(ctx, dict(job_replay(j), kind='correspondence', relation='Check.C10Check.exit_agrees (Model/Exit.v)',
                                      fail_level=j['fail_level']), no_input=True)
     timing['binary_s'] = round(time.time() - t2, 1)
+    t3 = time.time()
+    chan_stats = None
+    if chan is not None:
+        ref_jobs, chains, fails, problems, chan_stats, file_obs = chan
+        seen_sig = set()
+        for pb in problems:
+            fam = (pb['kind'], pb['sig'].split('/')[-1] if pb['kind'] != 'output-file' else pb['sig'].split('/', 1)[1])
+            if fam in seen_sig or len(ctx.violations) >= 5:
+                continue
+            seen_sig.add(fam)
+            sig = pb.pop('sig')
+            pb['channel_case'] = {'format': pb['format'], 'workspace': pb['workspace'], 'channel': pb.get('channel')}
+            vlib.violation(ctx, pb, signature={'kind': 'channel-' + pb['kind'], 'key': sig})
+        reports = {w: next((j.get('report') for j in ref_jobs if j['ws'] == w and j['format'] == 'json'), None) for w in CH_WORKSPACES}
+        f1, ce1, ce2, nf, ne = eval_channel(ctx, file_obs, chains, fails, reports)
+        chan_stats.update({'coq_file_observations': nf, 'coq_exit_observations': ne, 'mismatch_model_file_after': len(f1),
+                           'mismatch_model_run_exit': len(ce1), 'exit_spec_failures_channel': len(ce2), 'problems': len(problems)})
+        if (f1 or ce1 or ce2) and not ctx.violations:
+            # the model and the binary disagree although the byte-level / status-level predicates above found nothing
+            if f1:
+                _, _, _, rp1, sig = file_obs[f1[0]]
+                vlib.violation(ctx, dict(rp1, kind='correspondence', relation='Check.C10Check.file_agrees (Model/Exit.file_after)'), no_input=True)
+            else:
+                x = (ce1 or ce2)[0]
+                vlib.violation(ctx, dict(chan_replay(x), kind='correspondence',
+                                         relation='Check.C10Check.exit_agrees / exit_meets_spec on Model/Exit.lint_fn (delivery step)'), no_input=True)
+    timing['channel_s'] = round(time.time() - t3, 1)
     proof_gate(ctx)
 
     # ---- evidence -----------------------------------------------------------------------
@@ -697,6 +1019,7 @@ def run(ctx):
         'cases_with_payload_fields': sum(1 for c in cases if c['report'].get('metrics_j') or c['report'].get('aggregates_j')),
         'colour_mode_cases': sum(1 for c in cases if not c['nocolor']),
         'binary_runs': len(jobs), 'binary_exit_histogram': exit_hist,
+        'output_channel': chan_stats,
         'mismatch_model_reporters': sum(len(v) for v in model.values()),
         'predicate_failures_harness': sum(1 for v in pred_fail.values() for d in v.values() if finding_kind(d) != 'format-omits-rule-and-level'),
         'known_finding_hits_compact_omits_rule_and_level': sum(1 for v in pred_fail.values() for d in v.values() if finding_kind(d) == 'format-omits-rule-and-level'),
@@ -715,4 +1038,7 @@ def run(ctx):
         'report ints are non-negative (N); free-form payloads (aggregates, metrics, ignore_directives, profile) are opaque JSON values',
         'jsoniter/encoding-json byte-level escaping, go-sarif and go-junit-report serialisation are validated by this correspondence only',
         'cobra flag parsing and linter.Lint are oracles of Model/Exit.v (lint_result); GITHUB_STEP_SUMMARY output and the regal_standalone hint are not modelled',
+        'output channel: the results of open(2)/write(2) are oracles (io_result) of Model/Exit.lint_fn; failing devices are /dev/full, a file '
+        'size limit (RLIMIT_FSIZE with SIGXFSZ ignored: write fails with EFBIG at a chosen byte) and paths that cannot be opened; a read-only '
+        'directory is exercised only when the check does not run as root',
     ])
